@@ -167,6 +167,7 @@ def parse_tikz(doc):
     n = len(G["boxes"])
     from labella.utils import int2name
     ids = [int2name(k) for k in range(n)]
+    G["_linknames"] = list(names)
     G["_names_ok"] = names == ids and G.get("_boxnames", []) == ids and G.get("_dotnames", []) == ids
     G["col_dot"] = [colors.get(("dot", k)) for k in ids]
     G["col_link"] = [colors.get(("link", k)) for k in ids]
